@@ -99,7 +99,9 @@ def c14 : List String := Id.run do
   for r in externalRefs do
     if r.path.startsWith "alloc" || r.kind == "extern-crate" then
       out := out ++ [s!"reference to alloc / an external crate: {repr r}"]
-    else if !(noStdBuilds.all (fun b => !compiledIn b r)) then
+    else if r.kind == "foreign" && !((noStdBuilds ++ stdBuilds).all (fun b => !compiledIn b r)) then
+      out := out ++ [s!"a foreign symbol is declared in a shipped build — the library then needs something outside `core` at link time (builds: {repr ((noStdBuilds ++ stdBuilds).filter (fun b => compiledIn b r) |>.map (·.features))}): {repr r}"]
+    else if r.kind != "foreign" && !(noStdBuilds.all (fun b => !compiledIn b r)) then
       out := out ++ [s!"std item compiled into a no-std build: {repr r}"]
     else if r.kind == "prelude-alloc" && !((noStdBuilds ++ stdBuilds).all (fun b => !compiledIn b r)) then
       out := out ++ [s!"an allocating std-prelude item is compiled into a shipped build: {repr r}"]
